@@ -19,6 +19,14 @@ MACROS = {
         "#[kani::stub(crate::enc::lz::LZEncoder::set_finishing, %slz_noop_stub)]" % LW,
         "#[kani::stub(crate::enc::encoder::LZMAEncoder::encode_for_lzma1, crate::enc::lzma_writer::verif_kani::encode_for_lzma1_stub)]",
     ],
+    # as PAYLOAD_LZMA_W but with the real LZMAWriter::finish (its expected-size check is the subject of C18.lzma)
+    "PAYLOAD_LZMA_REALFIN": [
+        "#[kani::stub(crate::enc::lz::LZEncoder::fill_window, %sfill_window_stub)]" % LW,
+        "#[kani::stub(crate::enc::lz::LZEncoder::set_finishing, %slz_noop_stub)]" % LW,
+        "#[kani::stub(crate::enc::encoder::LZMAEncoder::encode_for_lzma1, crate::enc::lzma_writer::verif_kani::encode_for_lzma1_stub)]",
+        "#[kani::stub(crate::enc::encoder::LZMAEncoder::encode_lzma1_end_marker, crate::enc::lzma_writer::verif_kani::end_marker_stub)]",
+        "#[kani::stub(crate::enc::encoder::LZMAEncoder::new, crate::enc::lzma_writer::verif_kani::enc_new_zeroed)]",
+    ],
     # LZMA2 payload layer by contract, seen from a container (XZ) writer: see kani/enc/lzma2_writer.rs
     "PAYLOAD_W": [
         "#[kani::stub(LZMA2Writer::new, %slzma2_new_zeroed)]" % LW,
